@@ -101,21 +101,36 @@ func newWorld(le *logrus.Entry) *world {
 	}
 	w.b = tb.Bus
 	w.rels = append(w.rels, tb.Release)
-	cfg2, _ := peer_controller.NewConfigWithPrivKey(vio.Key("linktable/M2"))
-	_, _, ref2, err := bus.ExecOneOff(ctx, w.b, resolver.NewLoadControllerWithConfig(cfg2), nil, nil)
-	if err != nil {
-		vio.Fatal("peer controller 2: %v", err)
+	// VERIF_UNPINNED=1: controller c1 is not configured with a peer id and resolves its peer through the bus (the documented default);
+	// it is started while M1 is the only peer on the bus
+	unpinned := os.Getenv("VERIF_UNPINNED") == "1"
+	addM2 := func() {
+		cfg2, _ := peer_controller.NewConfigWithPrivKey(vio.Key("linktable/M2"))
+		_, _, ref2, err := bus.ExecOneOff(ctx, w.b, resolver.NewLoadControllerWithConfig(cfg2), nil, nil)
+		if err != nil {
+			vio.Fatal("peer controller 2: %v", err)
+		}
+		w.rels = append(w.rels, ref2.Release)
 	}
-	w.rels = append(w.rels, ref2.Release)
+	if !unpinned {
+		addM2()
+	}
 	for i, c := range []string{"c1", "c2"} {
 		c := c
+		if unpinned && c == "c2" {
+			addM2()
+		}
 		ft := &fakes.Transport{UUID: uint64(100 + i), Peer: pid(localOf[c]), Ready: make(chan struct{})}
 		w.tpts[c] = ft
 		ctor := func(ctx context.Context, le *logrus.Entry, pkey crypto.PrivKey, h transport.TransportHandler) (transport.Transport, error) {
 			ft.Handler = h
 			return ft, nil
 		}
-		ctrl := tptc.NewController(le, w.b, controller.NewInfo("verif/tpt/"+c, semver.MustParse("0.0.1"), "fake transport"), pid(localOf[c]), false, ctor)
+		cfgPeer := pid(localOf[c])
+		if unpinned && c == "c1" {
+			cfgPeer = ""
+		}
+		ctrl := tptc.NewController(le, w.b, controller.NewInfo("verif/tpt/"+c, semver.MustParse("0.0.1"), "fake transport"), cfgPeer, false, ctor)
 		rel, err := w.b.AddController(ctx, ctrl, nil)
 		if err != nil {
 			vio.Fatal("add controller: %v", err)
